@@ -90,6 +90,8 @@ def gen_workload(tape, *, max_funcs=5, max_size=3, allow_gen=True, allow_tuple=T
         fd["outputs"] = outs
         if n_out == 1 and kind != "gen" and tape.coin(0.12, "returns-none"):
             fd["none_mod"] = 2 + tape.choose(2, "none-mod")
+        if tape.coin(0.15, "element-scope"):
+            fd["resources_scope"] = "element"  # learners are then split per element
         # extra bound / default parameters
         if allow_defaults and tape.coin(0.15, "bound"):
             b = f"b{counters['b']}"
@@ -206,7 +208,8 @@ def build_pipeline(w, *, cached=(), tags=None, **pipeline_kwargs):
         if fd.get("out_shape") and w.get("internal_via", "pipefunc") == "pipefunc":
             kw["internal_shape"] = tuple(fd["out_shape"])
         pfs.append(PipeFunc(fn, out, mapspec=fd.get("mapspec"), defaults=dict(fd.get("defaults") or {}) or None,
-                            bound=dict(fd.get("bound") or {}) or None, cache=fd["name"] in cached, **kw))
+                            bound=dict(fd.get("bound") or {}) or None, cache=fd["name"] in cached,
+                            resources_scope=fd.get("resources_scope", "map"), **kw))
     return Pipeline(pfs, **pipeline_kwargs)
 
 
@@ -235,6 +238,7 @@ def describe(w):
             {"f": fd["name"], "params": fd["params"], "out": fd["outputs"], "mapspec": fd["mapspec"],
              **({"out_shape": fd["out_shape"]} if fd.get("out_shape") else {}),
              **({"returns_none_1_in": fd["none_mod"]} if fd.get("none_mod") else {}),
+             **({"resources_scope": "element"} if fd.get("resources_scope") == "element" else {}),
              **({"bound": fd["bound"]} if fd.get("bound") else {}),
              **({"defaults": {**fd["defaults"], **fd["sig_defaults"]}} if fd.get("defaults") or fd.get("sig_defaults") else {})}
             for fd in w["functions"]
